@@ -32,6 +32,15 @@ CLAIMED["C03"] = dict(
     ref="5/C03",
 )
 
+CLAIMED["C04"] = dict(
+    text="Bounded symbolic checking of the real fft/ifft/make_grid/get_fourier_coefficients/scaling arrays: round trip for symbolic states; grid entries j*L/N with L symbolic; for EVERY wavenumber vector of each listed grid a field "
+    "A cos(theta)-B sin(theta) with symbolic amplitude/phase lands, through the real code, exactly in the stored mode(s) the documented layout and the real wavenumber array name, with the documented scaling for all three modes and both indexings. "
+    "For ALL N<=4096: wavenumber kernels exact in f32 and f64 (QF_BVFP from the AST), oddball cut-off; mode blocks map wavenumber to wavenumber for all grid sizes (real get_modes_slices run on parity-split symbolic ints, LIA).",
+    note="E1 grids bounded; real arithmetic; get_fourier_coefficients with round=None; low-pass mask membership per N is concrete enumeration (stated as such); trusted: tracer, interpreter, z3, cvc5, the JAX rfftfreq model (validated by sweep).",
+    technique="symbolic execution of jaxprs to QF_NRA/LRA (z3) + AST kernels to QF_BVFP with symbolic N (cvc5) + LIA on symbolic-int execution of get_modes_slices",
+    ref="5/C04",
+)
+
 NOT_APPLICABLE = {
     "C19": "floating-point overflow/precision faithfulness of XLA's exp/complex-division kernels for |lambda dt| up to 1e15 and f32-vs-f64 closeness: needs a bit-level model of XLA CPU kernels and exp in QF_FP, which is not available offline; real-arithmetic fragments are discharged under C02/C03 instead (DESIGN.md section 9)",
 }
